@@ -685,9 +685,15 @@ impl ParquetMetaDataReader {
         } else {
             let metadata_start = suffix_len - metadata_offset;
             let slice = suffix.slice(metadata_start..suffix_len - FOOTER_SIZE);
+            // The bytes before the metadata can only be reused (e.g. for the page
+            // index) if their position in the file is known. The file size is not
+            // known here, so that is only the case when the source returned fewer
+            // bytes than requested, i.e. the suffix is the entire file and starts
+            // at offset 0. Otherwise the page index has to be fetched by range.
+            let remainder = (suffix_len < prefetch).then(|| (0, suffix.slice(..metadata_start)));
             Ok((
                 self.decode_footer_metadata(slice, file_size, footer)?,
-                Some((0, suffix.slice(..metadata_start))),
+                remainder,
             ))
         }
     }
